@@ -138,6 +138,14 @@ impl Prop for Repair {
             }
             ops.push(WOp::Finalize);
         }
+        if !big && !cfg.comp() && rng.chance(1, 6) {
+            // adversarial block-lookalike content: a well-formed FileStart("intruder")... sequence planted in a
+            // file's content at chunk-aligned stream offsets (36 = FileStart(17+2) + content header 17)
+            let look = lookalike_blocks().len();
+            let period = c.chunk * look.div_ceil(c.chunk);
+            let n = rng.range(2, 5) as usize * period + rng.usize_below(c.chunk);
+            ops.insert(0, WOp::Add { name: Name::lit("lk"), data: Data::Look { n, first: (c.chunk - 36 % c.chunk) % c.chunk, period, seed: rng.u64() }, src: Src::exact() });
+        }
         let mut case = Case::new(self.id, cfg, ops);
         if big {
             case.params.insert("max_anchors".into(), 12);
@@ -174,7 +182,7 @@ impl Prop for Repair {
         let modes: &[bool] = if case.cfg.enc() { &[true, false] } else { &[true] };
         let only_mode = case.param("only_auth", -1);
         let ocfg = out_cfg(&case.cfg.variant);
-        let plain_rcfg = ReadCfg { keys: vec![], sched: Sched::Full, budget: u64::MAX / 2, error_at_read: None, spill_path: None };
+        let plain_rcfg = ReadCfg { keys: vec![], sched: Sched::Full, budget: u64::MAX / 2, error_at_read: None, spill_path: None, explicit_auth_mode: false };
         // ground truth pieces (no compression only)
         let stream_len = len - hlen;
         for &auth in modes {
